@@ -507,7 +507,7 @@ func c02InterfaceProject(r *Rand) *c02Input {
 		if pass > 0 {
 			with.WriteString("    with:\n")
 			for _, k := range r.Perm(len(names))[:pass] {
-				with.WriteString("      " + names[k] + ": " + r.Pick([]string{"x", "1", "true", "''"}) + "\n")
+				with.WriteString("      " + names[k] + ": " + r.Pick([]string{"x", "1", "true", "''", "${{ 'a' }}-${{ 'b' }}", "${{ 1 }}${{ 2 }}", "v${{ 1 }}.${{ true }}.${{ 'x' }}", "${{ true }}", "${{ 1 }}", "${{ 'a' }}", "${{ fromJSON('null') }}"}) + "\n")
 			}
 		}
 		files[name] = "on: push\njobs:\n  c:\n    uses: ./.github/workflows/callee.yml\n" + with.String() + r.Pick([]string{"", "    secrets: inherit\n", "    secrets:\n      sec0: x\n"}) +
